@@ -213,7 +213,13 @@ func (g *gateCase) run() (v *hx.Violation) {
 			requiredNil = true
 		}
 	}
+	orig := append([]tensor.Tensor{}, in...)
 	out, verr := op.ValidateInputs(in)
+	for i := range orig {
+		if in[i] != orig[i] {
+			return mk("mutated-input", fmt.Sprintf("the gate overwrote entry %d of the caller's input list", i))
+		}
+	}
 	for i, t := range in {
 		if t != nil && !native[i] {
 			if d := snaps[i].Diff(hx.Snapshot(t)); d != "" {
